@@ -265,8 +265,12 @@ class RaftNode(Entity):
         if sender is None:
             return []
 
+        # A leader has no election timer running (it is cancelled on election);
+        # once deposed it must get one again even if it refuses this vote.
+        was_leader = self._state == RaftState.LEADER
         if term > self._current_term:
             self._step_down(term)
+        deposed = was_leader and self._state != RaftState.LEADER
 
         vote_granted = False
         if (
@@ -294,8 +298,9 @@ class RaftNode(Entity):
         )
 
         events = [resp]
-        if vote_granted:
-            # Reset election timeout since we granted a vote
+        if vote_granted or deposed:
+            # Reset election timeout since we granted a vote (or just stopped
+            # being leader and have no timer at all)
             events.append(self._schedule_election_timeout())
         return events
 
